@@ -1,10 +1,14 @@
 pub mod accept;
+pub mod bds;
 pub mod country;
+pub mod cpr;
 pub mod fields;
+pub mod sem;
 
 pub fn self_test() -> Result<(), String> {
     crate::frames_self_test()?;
     country::self_test()?;
     fields::self_test()?;
+    cpr::self_test()?;
     Ok(())
 }
